@@ -4,7 +4,7 @@
 From Coq Require Import Reals List Lra.
 From ADV Require Import Base.Num C16.Model C16.ModelHmm C16.Spec C16.ProofsMax C16.ProofsEM C16.ProofsModel
   C16.ProofsBW C16.ProofsBW2 C16.ProofsBW3 C16.ProofsClamp C16.ModelVec C16.ProofsVec C16.ProofsDet
-  C16.ModelNest C16.ProofsNest.
+  C16.ModelNest C16.ProofsNest C16.ModelObj C16.ProofsObj.
 Import ListNotations.
 Open Scope R_scope.
 
@@ -553,3 +553,112 @@ Example summary_hypotheses_satisfiable :
   summ_counts Nat.eqb [2; 2; 5]%nat = [2; 1]%nat /\ top_refuses (TMix false [NMix true [NLeaf]; NLeaf]) = true /\
   top_refuses (TMix true [NMix false [NLeaf; NLeaf]]) = false /\ top_refuses (THmm [NMix true [NLeaf]]) = true.
 Proof. repeat split. Qed.
+
+(* ------------------------------------------------------------------ *)
+(* (6) estimator OBJECTS re-used across calls (round 6; model ModelObj.v: SetData keeps a reference, Estimate =
+   Initialize + pre-pass + NewObservation over the CURRENT contents + updateEstimate, which keeps the accumulators
+   when the constructor refuses; GetEstimate finishes pending accumulators).  For EVERY family (accumulator type,
+   observation step, update), every heap of data vectors and every call history: *)
+
+(* after any history, SetData(v); caller writes into any vectors; Estimate(g) returns the pure estimate of the
+   current contents of v under g *)
+Theorem reused_estimator_object_returns_the_estimate_of_the_current_data :
+  forall (D G ACC PRE P : Type) (F : family D G ACC PRE P) (prefix ws : list (op D G)) h0 (st0 : obj ACC PRE P) v g xs,
+  forallb is_write ws = true ->
+  nth_error (heap_of (prefix ++ ws) h0) v = Some xs ->
+  last_outcome (run F (h0, st0) (prefix ++ OpSetData v :: ws ++ [OpEstimate g])) = outcome_of (pure_estimate F xs g).
+Proof. intros D G ACC PRE P F. exact (history_does_not_survive F). Qed.
+
+(* ... which is what a NEW estimator object returns on the same calls *)
+Theorem reused_estimator_object_equals_new_object :
+  forall (D G ACC PRE P : Type) (F : family D G ACC PRE P) (prefix ws : list (op D G)) h0 (st0 : obj ACC PRE P) v g xs pre p0,
+  forallb is_write ws = true ->
+  nth_error (heap_of (prefix ++ ws) h0) v = Some xs ->
+  last_outcome (run F (h0, st0) (prefix ++ OpSetData v :: ws ++ [OpEstimate g])) =
+  last_outcome (run F (heap_of prefix h0, fresh pre p0) (OpSetData v :: ws ++ [OpEstimate g])).
+Proof. intros D G ACC PRE P F. exact (reused_object_equals_fresh_object F). Qed.
+
+Theorem estimate_on_data_after_any_history_is_the_pure_estimate :
+  forall (D G ACC PRE P : Type) (F : family D G ACC PRE P) (prefix : list (op D G)) h0 (st0 : obj ACC PRE P) v g xs,
+  nth_error (heap_of prefix h0) v = Some xs ->
+  last_outcome (run F (h0, st0) (prefix ++ [OpEstimateOnData v g])) = outcome_of (pure_estimate F xs g).
+Proof. intros D G ACC PRE P F. exact (estimate_on_data_after_any_history F). Qed.
+
+(* a second Estimate with other weights (data untouched or rewritten in place in between) forgets the first *)
+Theorem second_estimate_with_other_weights_forgets_the_first :
+  forall (D G ACC PRE P : Type) (F : family D G ACC PRE P) (prefix ws : list (op D G)) h0 (st0 : obj ACC PRE P) v g1 g2 xs,
+  forallb is_write ws = true ->
+  nth_error (heap_of (prefix ++ ws) h0) v = Some xs ->
+  last_outcome (run F (h0, st0) (prefix ++ OpSetData v :: OpEstimate g1 :: ws ++ [OpEstimate g2]))
+  = outcome_of (pure_estimate F xs g2).
+Proof. intros D G ACC PRE P F. exact (second_estimate_with_other_weights F). Qed.
+
+(* batch variant: Initialize; NewObservation ...; GetEstimate after any history *)
+Theorem batch_estimate_after_any_history_is_the_pure_batch_estimate :
+  forall (D G ACC PRE P : Type) (F : family D G ACC PRE P) (prefix : list (op D G)) h0 (st0 : obj ACC PRE P) obs,
+  last_outcome (run F (h0, st0) (prefix ++ batch_ops obs)) = outcome_of (pure_batch F obs).
+Proof. intros D G ACC PRE P F. exact (batch_estimate_after_any_history F). Qed.
+
+(* GetEstimate after a successful estimate hands out that estimate and changes nothing; after a FAILED estimate it
+   fails again (the parameters of an earlier estimate are not handed out as the new one) *)
+Theorem get_estimate_repeats_the_last_outcome :
+  forall (D G ACC PRE P : Type) (F : family D G ACC PRE P) h (st st' : obj ACC PRE P) g,
+  (forall p, estimate F h st g = (st', RParams p) -> step F (h, st') OpGetEstimate = ((h, st'), RParams p)) /\
+  (estimate F h st g = (st', RErr) -> snd (step F (h, st') OpGetEstimate) = RErr).
+Proof. intros D G ACC PRE P F. exact (get_estimate_repeats F). Qed.
+
+(* the pure estimates of the object's families ARE the estimator functions of Model.v that (1) and the per-case
+   checks are about, on every carrier (R for the theorems, binary64 for the bit-exact replay) *)
+Theorem object_families_are_the_estimator_functions :
+  forall (A : Type) (N : Num A) (EXP LOG LOG1P : A -> A) xs g,
+  (forall smin, pure_estimate (normal_family N EXP smin) xs g = normal_est N EXP smin xs g) /\
+  (forall lmax, pure_estimate (exponential_family N EXP LOG LOG1P lmax) xs g = exponential_est N EXP LOG LOG1P lmax xs g) /\
+  pure_estimate (geometric_family N EXP LOG LOG1P) xs g = geometric_est N EXP LOG LOG1P xs g /\
+  (match g with Some gs => length gs = length xs | None => True end ->
+   pure_estimate (poisson_family N EXP LOG LOG1P) xs g = poisson_est N EXP LOG LOG1P xs g).
+Proof. exact @families_are_estimator_functions. Qed.
+
+(* (3') the mixture emAlgorithm leaves in the estimator is the one handed to the LAST hook call (convergence test
+   fired, maxSteps reached or fuel of the model exhausted) ... *)
+Theorem em_returns_the_mixture_of_the_last_hook_call :
+  forall (P L : Type) (ell : P -> L) (upd : P -> P) (lsubL : L -> L -> L) (conv : L -> bool)
+    fuel nested ms th0 nanL neg_inf hs thf ex,
+  em_algorithm (step_of ell upd) lsubL conv neg_inf nanL fuel nested ms th0 = (hs, thf, ex) ->
+  exists h, nth_error hs (length hs - 1) = Some h /\ h_mix h = thf /\ thf = iter_l upd (length hs - 1) th0.
+Proof. intros P L ell upd lsubL conv. exact (em_returns_the_last_hooked_mixture ell upd lsubL conv). Qed.
+
+(* ... and with a step that never decreases the likelihood ((2), Baum-Welch, nested) the RETURNED mixture is at least
+   as likely as every likelihood reported to a hook, the one whose increment stopped the loop included *)
+Theorem em_returned_mixture_is_at_least_as_likely_as_every_reported_likelihood :
+  forall (P : Type) (ell : P -> R) (upd : P -> P) (lsubL : R -> R -> R) (conv : R -> bool),
+  (forall th, ell th <= ell (upd th)) ->
+  forall fuel nested ms th0 nanL neg_inf hs thf ex,
+  em_algorithm (step_of ell upd) lsubL conv neg_inf nanL fuel nested ms th0 = (hs, thf, ex) ->
+  forall t h, nth_error hs (S t) = Some h -> h_lik h <= ell thf.
+Proof. intros P ell upd lsubL conv Hasc. exact (em_returned_mixture_is_at_least_as_likely_as_reported ell upd lsubL conv Hasc). Qed.
+
+(* non-vacuity: a history with a failed estimate, a batch use left unfinished and an in-place write on a toy family
+   (accumulator = sum, the constructor refuses 0); the hypotheses hold and both sides are the estimate 12 of (5, 7) *)
+Example object_history_hypotheses_satisfiable :
+  let F := mkFam 0%nat tt (fun _ : list unit => tt) (fun _ acc (x : nat) (_ : option unit) => (acc + x)%nat)
+                 (fun acc => match acc with O => None | S _ => Some acc end) in
+  let prefix := [OpSetData 1; OpEstimate None; OpInitialize; OpNewObservation 9%nat None; OpEstimateOnData 0 (Some [tt; tt])] in
+  let ws := [OpWrite 0 1 7%nat] in
+  let h0 := [[5; 6]; [0]]%nat in
+  forallb (is_write (D:=nat) (G:=unit)) ws = true /\
+  nth_error (heap_of (prefix ++ ws) h0) 0 = Some [5; 7]%nat /\
+  snd (run F (h0, fresh tt 1%nat) (prefix ++ OpSetData 0 :: ws ++ [OpEstimate None])) =
+    [RNone; RErr; RNone; RNone; RParams 11%nat; RNone; RNone; RParams 12%nat] /\
+  outcome_of (pure_estimate F [5; 7]%nat None) = RParams 12%nat.
+Proof. repeat split; reflexivity. Qed.
+
+Example em_return_hypotheses_satisfiable :
+  let ell := fun n : nat => INR n in
+  (forall th, ell th <= ell (S th)) /\
+  exists hs thf ex, em_algorithm (step_of ell S) Rminus (fun _ => false) 0 0 5 false (Some 2%nat) 3%nat = (hs, thf, ex) /\
+                    thf = 5%nat /\ length hs = 3%nat.
+Proof.
+  intros ell. split.
+  - intros th. unfold ell. rewrite S_INR. lra.
+  - eexists _, _, _. split; [reflexivity|]. split; reflexivity.
+Qed.
